@@ -293,8 +293,15 @@ class AffineEval:
                 self.stmt(ast.copy_location(ast.Assign([t], s.value), s))
             return
         if isinstance(s, ast.Assign) and len(s.targets) == 1:
-            v = self.ev(s.value)
             t = s.targets[0]
+            try:
+                v = self.ev(s.value)
+            except NotAffine:
+                if not isinstance(t, ast.Name):
+                    raise
+                # a local for something this evaluation has no value for (a
+                # container, an object): opaque until it is used in arithmetic
+                v = ('opaque', norm(s.value))
             if isinstance(t, ast.Name):
                 self.env[t.id] = v
                 return
